@@ -75,6 +75,9 @@ func (s *Sim) pickFor(need uint64) []*Coin {
 	return nil
 }
 
+// PickFor is pickFor for monitors.
+func (s *Sim) PickFor(need uint64) []*Coin { return s.pickFor(need) }
+
 func (s *Sim) randPlan(cfg GenCfg) lnmodel.PayPlan {
 	if !cfg.LNOutcomes {
 		return lnmodel.PayPlan{Answer: lnmodel.ASucceeded}
@@ -94,7 +97,7 @@ func (s *Sim) randPlan(cfg GenCfg) lnmodel.PayPlan {
 	return lnmodel.PayPlan{Answer: lnmodel.ASucceeded}
 }
 
-var advOutModes = []string{"over1", "overflow", "near-overflow", "nonpow2", "zero-amount", "inactive-keyset", "mixed-inactive-keyset", "unknown-keyset", "mixed-unknown-keyset", "dup-output", "already-signed"}
+var advOutModes = []string{"over1", "overflow", "near-overflow", "nonpow2", "zero-amount", "inactive-keyset", "mixed-inactive-keyset", "unknown-keyset", "mixed-unknown-keyset", "dup-output", "dup-B_-diff-amount", "already-signed"}
 
 // RandomOp performs one generated operation.
 func (s *Sim) RandomOp(cfg GenCfg) {
